@@ -31,3 +31,73 @@ def _uuid(ex, fv_, args, kwargs, fr, node):
 @handler("ValueError", "NotImplementedError")
 def _exc(ex, fv_, args, kwargs, fr, node):
     return vnone()
+
+
+@handler("scipy.optimize.minimize")
+def _scipy_minimize(ex, fv_, args, kwargs, fr, node):
+    """scipy.optimize.minimize(fun, x0, ..., callback=cb): the optimiser interacts with the program only by calling `fun` and
+    `callback`, any finite number of times in any order (trusted).  Modelled as the loop
+        while *: (fun(x) for some x) or (callback(r) for some intermediate result r)
+    under the invariant the calling function's contract declares as loops["callbacks"].  The result object's nfev is the number
+    of calls of `fun` (trusted: SciPy reports it exactly)."""
+    from .core import PathEnd
+    from . import spec as _spec
+    con = fr.contract
+    ls = con.loops.get("callbacks") if con is not None else None
+    if ls is None:
+        raise Unsupported("scipy.optimize.minimize: the contract must declare loops['callbacks'] (client-loop invariant)")
+    fun = args[0]
+    cb = kwargs.get("callback")
+    ex.used_models.add("scipy.optimize.minimize (client loop over fun/callback; nfev == number of fun calls)")
+    fr.locals["sopt_fun_calls"] = vint(0)
+
+    def extra(fr_):
+        n = ex.fresh("sopt_fun_calls", INT)
+        ex.assume(n >= 0)
+        fr_.locals["sopt_fun_calls"] = vint(n)
+
+    def guard(fr_):
+        return ex.fresh("sopt_more", z3.BoolSort())
+
+    def body(fr_):
+        if cb is None or ex.dec.decide(2) == 0:
+            x = Val(Ty("g"), ex.fresh("sopt_x", smt.G))
+            ex.call_value(fun, [x], {}, fr_, node)
+            fr_.locals["sopt_fun_calls"] = vint(fr_.locals["sopt_fun_calls"].t + 1)
+        else:
+            r = ex.new_obj("optres", "$OptRes")
+            rv = Val(Ty("ref", cls="$OptRes"), r)
+            ex.wr(r, "x", Val(Ty("g"), ex.fresh("sopt_rx", smt.G)), Ty("g"))
+            f_ = ex.fresh("sopt_rfun", FL)
+            ex.assume(smt.fl_isnum(f_))
+            ex.wr(r, "fun", vfl(f_), Ty("fl"))
+            ex.call_value(cb, [rv], {}, fr_, node)
+
+    ex.run_loop(fr, "callbacks", ls, guard, body, set(), extra_locals=extra, node=node)
+    res = ex.new_obj("optresult", "$OptResult")
+    ex.wr(res, "nfev", fr.locals["sopt_fun_calls"], Ty("int"))
+    return Val(Ty("ref", cls="$OptResult"), res)
+
+
+@handler("getattr")
+def _getattr3(ex, fv_, args, kwargs, fr, node):
+    """getattr(obj, "name", default): the attribute's value if it has been set, the default otherwise.  Whether an instance
+    attribute has been set is not tracked: the result is one of the two (an over-approximation)."""
+    from .models import lit_of
+    from . import spec as _spec
+    if len(args) != 3 or args[0].ty.kind != "ref" or args[1].ty.kind != "str":
+        raise Unsupported("getattr other than getattr(obj, 'name', default)")
+    name = lit_of(args[1].t)
+    ft = _spec.field_type(args[0].ty.cls, name)
+    if ft is None:
+        raise Unsupported(f"getattr: field {args[0].ty.cls}.{name} has no declared type")
+    cur = ex.rd(args[0].t, name, ft)
+    dflt = ex.coerce(args[2], ft)
+    r = ex.fresh("getattr", ft.sort())
+    ex.assume(z3.Or(r == cur.t, r == dflt.t))
+    return Val(ft, r)
+
+
+@handler("g.copy")
+def _gcopy(ex, fv_, args, kwargs, fr, node):
+    return fv_.bound
